@@ -81,7 +81,7 @@ def main(tier, seed):
             # the file holds the metric on every ordered pair, exactly (text round trip included)
             direct = np.array([[float(fn(X[i].copy(), X[j].copy())) for j in range(N)] for i in range(N)])
             stats["matrix_entries"] += N * N
-            if direct.tobytes() != D.tobytes() and not (np.isnan(direct) == np.isnan(D)).all():
+            if direct.shape != D.shape or not ((direct == D) | (np.isnan(direct) & np.isnan(D))).all():
                 nviol += 1
                 rep.violation("pre_compute_distance file for %s differs from the metric on some ordered pair" % metric, dict(metric=metric, X=X.tolist()), key="precompute_file")
                 continue
@@ -200,6 +200,9 @@ def main(tier, seed):
                 nviol += 1
                 rep.violation("get_distances(normalize=True) is not the min-max rescaling to [0,1] (%s): range [%r, %r]" % (metric, float(Gn.min()), float(Gn.max())), desc, key="get_distances")
     stats["get_distances"] = gd
+    # ---- large-size stream: files of > 128 / 256 / 512 / 1024 rows, > 64 features (harness/large_b.py)
+    import large_b
+    nviol += large_b.c10_large(rep, seed, tier, tmp, stats)
     shutil.rmtree(tmp, ignore_errors=True)
     rep.obligation("correspondence: model through the distance file (index arrays) == model computing the metric directly (forest state bit-for-bit, predictions)",
                    not [v for v in rep.violations], "%d disagreements" % len(rep.violations))
@@ -208,7 +211,10 @@ def main(tier, seed):
     rep.samples = [dict(model="sup", metric=metrics[0], format="txt"), dict(model="unsup", metric=metrics[-1], format="csv")]
     rep.rule = ("datasets of 10-16 rows (a fifth on integer lattices: ties) x metrics (10 per quick run, all 47 x 6 rounds in thorough) x {.txt,.csv}; split_with_index with random "
                 "seeds/percentages; supervised, unsupervised, semi-supervised (supported layout) and semi-supervised with an arbitrary split (known finding stream); "
-                "distinct = distinct (model, metric, format, data, split)")
+                "distinct = distinct (model, metric, format, data, split); large-size stream: 4 datasets per quick run with 129-200 rows x 65-90 "
+                "(or 257-300) features, 257-400, 513-640 and 1025-1100 rows (class-structured blobs with duplicated rows, a fifth on "
+                "lattices), the file written by the library (.txt or .csv) compared entry by entry with the metric and all four model "
+                "runs compared through index arrays that reach the highest row numbers")
     rep.assumptions = ["np.savetxt('%.18e') / np.loadtxt round-trips float64 exactly: validated on every matrix entry, not proved (partial)",
                        "KNN-supervised is not in C10's list (its _learn rejects matrices larger than the training set)"]
     return rep.finish()
@@ -216,4 +222,10 @@ def main(tier, seed):
 
 def replay(path):
     print(open(path).read()[:2000])
+    r = json.load(open(path)).get("replay", {})
+    if isinstance(r, dict) and r.get("kind") == "large":
+        # large inputs are stored as generator parameters: large_b.c10_dataset(gen) rebuilds the data set exactly
+        import large_b
+        X, Y = large_b.c10_dataset(r["gen"])
+        print("replay: rebuilt %d x %d data set (metric %s); first row %r" % (X.shape[0], X.shape[1], r["metric"], X[0].tolist()[:6]))
     return 0
